@@ -94,6 +94,9 @@ example (one two three zero : N) (hp : nm.parse ['a', 'b'] = none) :
 theorem descendants_eq_spec (d : Doc) (hp : PreOrder d) (i : Nat) : d.desc i = specDesc d i :=
   desc_eq_specDesc d hp i
 
+/-- C14c: `PreOrder` is what the driver checks on every document of the correspondence run. -/
+theorem preorder_check_sound (d : Doc) (h : d.isPreOrder = true) : PreOrder d := preOrder_of_check d h
+
 /-- C14c: every find-function the parser can pick (lead-in `/` or `//`, first step or not, each of the six
     axes) is the specification's axis-and-name-test. -/
 theorem find_function_eq_axis (d : Doc) (hp : PreOrder d) (first : Bool) (s : SStep N) (i : Nat) :
